@@ -586,3 +586,5 @@ PROPS["C17"]["rule"] += " In one case in three every probe ends with three scrap
 PROPS["C17"]["rule"] += " Whole-process part, one case in three: every forwarding read of the fake OS takes 2 ms and three real HTTP GET /metrics are in flight at once; each answer must be 200 with exactly the sample set of the request that ran alone."
 PROPS["C12"]["rule"] += " Every 'inconsistency N:' log line is parsed: the (field, details) pairs named by the lines must equal the expected inconsistencies as a multiset."
 PROPS["C19"]["rule"] += " The watch ends in one of three ways: context cancelled, event source ended, event source failed (Watch must return the error and still close every channel)."
+PROPS["C02"]["rule"] += " The sweep enumerates every prefix length 0..128 for prefix, route and pref64 (a dense network and the unspecified one), every hop limit -2..258 and MTUs around every power of two; duration values are spelled in ten ways (Go's own, whole s/ms/us/m, tenths of an hour, hundredths of a second, a sign, leading zeros, units in reverse order) while the reference works on the exact nanosecond value."
+PROPS["C03"]["rule"] += " pref64 CIDR strings cover every length 0..128 of two IPv6 networks and every length of an IPv4 network."
